@@ -67,13 +67,12 @@ func newConn(ctx context.Context, tr net.Conn, keys []ech.Key) (c *ech.Conn, err
 	err = guard(func() error {
 		var e error
 		var opts []ech.Option
+		split := 0
 		if w, ok := tr.(*wire.Conn); ok && len(keys) >= 2 && w.Remaining()%2 == 1 {
 			// WithKeys appends: a key list may arrive in several options (decided by the input)
-			k := 1 + (w.Remaining()/2)%(len(keys)-1)
-			opts = append(opts, ech.WithKeys(keys[:k:k]), ech.WithKeys(keys[k:]))
-		} else if keys != nil {
-			opts = append(opts, ech.WithKeys(keys))
+			split = 1 + (w.Remaining()/2)%(len(keys)-1)
 		}
+		opts = append(opts, keyOptions(keys, split)...)
 		if withDebug {
 			opts = append(opts, ech.WithDebug(func(f string, a ...any) {
 				_ = fmt.Sprintf(f, a...)
@@ -93,6 +92,37 @@ func newConn(ctx context.Context, tr net.Conn, keys []ech.Key) (c *ech.Conn, err
 		return e
 	})
 	return c, err
+}
+
+// optCache, when non-nil, makes newConn hand the same Option values to every connection
+// that is given the same key material (a server builds its options once and uses them in
+// its accept loop); a case enables it with reuseOptions and drops it when done.
+var optCache map[string][]ech.Option
+
+func reuseOptions() func() {
+	optCache = map[string][]ech.Option{}
+	return func() { optCache = nil }
+}
+
+func keyOptions(keys []ech.Key, split int) []ech.Option {
+	if keys == nil {
+		return nil
+	}
+	id := fmt.Sprint(split)
+	for _, k := range keys {
+		id += "|" + string(k.Config) + "|" + string(k.PrivateKey)
+	}
+	if o, ok := optCache[id]; ok {
+		return o
+	}
+	o := []ech.Option{ech.WithKeys(keys)}
+	if split > 0 {
+		o = []ech.Option{ech.WithKeys(keys[:split:split]), ech.WithKeys(keys[split:])}
+	}
+	if optCache != nil {
+		optCache[id] = o
+	}
+	return o
 }
 
 // nilDebug decides, as a pure function of the scripted input, whether a call
